@@ -393,30 +393,50 @@ end Source
 /-! ### Multi-metric frames: no cross-talk between the metrics of a dict
 
 `Model/FrameMulti.lean`: `metrics=` a dict of any number of callables, each with its own entry of
-`sample_params`; all sample parameters are stored in ONE table `all_data` under the column names
-`f"{name}_{param_name}"` (translated from `_construct_annotated_metric_function`).  -/
+`sample_params`; all sample parameters are stored in ONE table `all_data`.  The column of a parameter is
+`f"{name}_{param_name}"` made unique by `while col_name in all_data.columns: col_name = col_name + "_"`
+(translated from `_construct_annotated_metric_function`, repair 897f58c of finding F19), so the theorems
+below need NO hypothesis on the metric or parameter names.  Under the pre-repair rule (no `while` loop) they
+are false: `legacy_crosstalk_witness`, `legacy_basecolumn_witness`. -/
 
 section Multi
 open FramePrims FrameMulti
 
 variable {γ : Type}
 
+/-- the uniquify loop always ends on a name that is not yet a column of `all_data` -/
+theorem column_name_fresh (t : AllData) (c : String) : uniquifyCol t c "_" ∉ columns t :=
+  uniquifyCol_fresh t c "_" (by decide)
+
+/-- `ColsOK`, proved for the current source: after constructing ANY dict of metrics the columns of
+    `all_data` are pairwise distinct, y_true / y_pred still hold the data, and every metric is paired with
+    an annotated function whose keyword columns hold exactly its own parameter values -/
+theorem multi_columns_ok (yt yp : List Rat) (ms : List (MetricSpec γ)) :
+    List.Forall₂ (RelV (constructAll (baseData yt yp) ms).1) ms (constructAll (baseData yt yp) ms).2 ∧
+    getCol (constructAll (baseData yt yp) ms).1 "y_true" = yt ∧
+    getCol (constructAll (baseData yt yp) ms).1 "y_pred" = yp :=
+  constructAll_rel yt yp ms
+
 /-- Every metric of a dict is called, on every slice, with y_true / y_pred of the slice and EXACTLY
-    ITS OWN non-None sample parameters, sliced the same way — whatever the other metrics and their
-    parameters are — provided the generated column names are pairwise distinct and differ from
-    `y_true` / `y_pred` (`ColsOK`).  Without that hypothesis the statement is FALSE of the code
-    (`multi_crosstalk_witness`). -/
+    ITS OWN non-None sample parameters, sliced the same way — whatever the other metrics, their
+    parameters and all the names are. -/
 theorem multi_metric_own_params (yt yp : List Rat) (ms : List (MetricSpec γ))
-    (hok : ColsOK (baseData yt yp) ms) (m : MetricSpec γ) (hm : m ∈ ms) (idx : List Nat) :
-    metricFn (constructAll (baseData yt yp) ms).1 (annotatedOf m) idx =
-      m.func [idx.map (fun j => yt.getD j 0), idx.map (fun j => yp.getD j 0)] (ownKwargs m idx) :=
-  metricFn_own yt yp ms hok m hm idx
+    (hnames : (ms.map (·.name)).Nodup) (m : MetricSpec γ) (hm : m ∈ ms) :
+    ∃ af, (∀ idx, (FrameSrc.apply_to_dataframe idx
+            (fnDict (constructAll (baseData yt yp) ms).1 (constructAll (baseData yt yp) ms).2)).lookup m.name =
+          some (metricFn (constructAll (baseData yt yp) ms).1 af idx)) ∧
+      ∀ idx, metricFn (constructAll (baseData yt yp) ms).1 af idx =
+        m.func [idx.map (fun j => yt.getD j 0), idx.map (fun j => yp.getD j 0)] (ownKwargs m idx) := by
+  obtain ⟨hrel, h1, h2⟩ := constructAll_rel yt yp ms
+  obtain ⟨af, hr, _, hl⟩ := lookup_fnDict_rel _ ms _ hrel hnames m hm (m.func [] [])
+  exact ⟨af, hl, fun idx => metricFn_of_rel _ yt yp m af hr h1 h2 idx⟩
 
 /-- each column of a multi-metric `by_group` equals the single-metric frame of that function with
-    exactly its own sample parameters; any number of metrics, features, rows -/
+    exactly its own sample parameters; any number of metrics, features, rows; any names (the dict keys
+    are distinct, nothing else is assumed) -/
 theorem multi_column_eq_single (nanv : γ) (ncf nsf : Nat) (yt yp : List Rat) (ms : List (MetricSpec γ))
     (rows : List (Row Nat)) (hwf : WF ncf nsf rows) (hnames : (ms.map (·.name)).Nodup)
-    (hok : ColsOK (baseData yt yp) ms) (m : MetricSpec γ) (hm : m ∈ ms) :
+    (m : MetricSpec γ) (hm : m ∈ ms) :
     FrameMulti.column m.name (byGroupFrame nanv ncf nsf (baseData yt yp) ms rows) =
       (singleByGroup nanv ncf nsf (baseData yt yp) m rows).map (fun p => (p.1, some p.2)) := by
   unfold byGroupFrame singleByGroup FrameMulti.column
@@ -425,19 +445,18 @@ theorem multi_column_eq_single (nanv : γ) (ncf nsf : Nat) (yt yp : List Rat) (m
   unfold byGroup
   refine (applyFunctions_map (fun row => List.lookup m.name row) _ _ _ _ _).trans ?_
   refine Eq.trans ?_ (applyFunctions_map some _ _ _ _ _).symm
-  have hD : (constructAll (baseData yt yp) ms).2 = ms.map annotatedOf := by rw [constructAll_eq]
-  have hs : construct (baseData yt yp) m = ((constructAll (baseData yt yp) [m]).1, annotatedOf m) := by
-    simp [constructAll_eq, construct_eq]
-  rw [hD, hs, lookup_nanRow nanv ms m hm]
+  obtain ⟨hrel, h1, h2⟩ := constructAll_rel yt yp ms
+  obtain ⟨af, hr, hnan, hl⟩ := lookup_fnDict_rel _ ms _ hrel hnames m hm nanv
+  obtain ⟨hr1, g1, g2⟩ := construct_rel yt yp m
+  rw [hnan]
   congr 1
   funext idx
-  rw [lookup_fnDict _ ms hnames m hm idx, metricFn_own yt yp ms hok m hm idx,
-    metricFn_own yt yp [m] (colsOK_single _ ms hok m hm) m (by simp) idx]
+  rw [hl idx, metricFn_of_rel _ yt yp m af hr h1 h2 idx, metricFn_of_rel _ yt yp m _ hr1 g1 g2 idx]
 
 /-- the same for `overall` (per control stratum when control features exist) -/
 theorem multi_overall_column_eq_single (nanv : γ) (ncf nsf : Nat) (yt yp : List Rat)
     (ms : List (MetricSpec γ)) (rows : List (Row Nat)) (hwf : WF ncf nsf rows)
-    (hnames : (ms.map (·.name)).Nodup) (hok : ColsOK (baseData yt yp) ms) (m : MetricSpec γ) (hm : m ∈ ms) :
+    (hnames : (ms.map (·.name)).Nodup) (m : MetricSpec γ) (hm : m ∈ ms) :
     FrameMulti.column m.name (overallFrame nanv ncf nsf (baseData yt yp) ms rows) =
       (singleOverall nanv ncf nsf (baseData yt yp) m rows).map (fun p => (p.1, some p.2)) := by
   unfold overallFrame singleOverall FrameMulti.column
@@ -446,19 +465,18 @@ theorem multi_overall_column_eq_single (nanv : γ) (ncf nsf : Nat) (yt yp : List
   unfold overall
   refine (applyFunctions_map (fun row => List.lookup m.name row) _ _ _ _ _).trans ?_
   refine Eq.trans ?_ (applyFunctions_map some _ _ _ _ _).symm
-  have hD : (constructAll (baseData yt yp) ms).2 = ms.map annotatedOf := by rw [constructAll_eq]
-  have hs : construct (baseData yt yp) m = ((constructAll (baseData yt yp) [m]).1, annotatedOf m) := by
-    simp [constructAll_eq, construct_eq]
-  rw [hD, hs, lookup_nanRow nanv ms m hm]
+  obtain ⟨hrel, h1, h2⟩ := constructAll_rel yt yp ms
+  obtain ⟨af, hr, hnan, hl⟩ := lookup_fnDict_rel _ ms _ hrel hnames m hm nanv
+  obtain ⟨hr1, g1, g2⟩ := construct_rel yt yp m
+  rw [hnan]
   congr 1
   funext idx
-  rw [lookup_fnDict _ ms hnames m hm idx, metricFn_own yt yp ms hok m hm idx,
-    metricFn_own yt yp [m] (colsOK_single _ ms hok m hm) m (by simp) idx]
+  rw [hl idx, metricFn_of_rel _ yt yp m af hr h1 h2 idx, metricFn_of_rel _ yt yp m _ hr1 g1 g2 idx]
 
 /-- and the single-metric frame is the C01 model frame of "the metric with its own parameters":
     every clause of C01 applies to every column of a multi-metric frame -/
 theorem single_eq_model (nanv : γ) (ncf nsf : Nat) (yt yp : List Rat) (m : MetricSpec γ)
-    (rows : List (Row Nat)) (hwf : WF ncf nsf rows) (hok : ColsOK (baseData yt yp) [m]) :
+    (rows : List (Row Nat)) (hwf : WF ncf nsf rows) :
     singleByGroup nanv ncf nsf (baseData yt yp) m rows =
       byGroup nanv ncf nsf
         (fun idx => m.func [idx.map (fun j => yt.getD j 0), idx.map (fun j => yp.getD j 0)] (ownKwargs m idx))
@@ -466,22 +484,10 @@ theorem single_eq_model (nanv : γ) (ncf nsf : Nat) (yt yp : List Rat) (m : Metr
   unfold singleByGroup
   dsimp only
   rw [FrameSrc.create_by_group_eq_model _ _ _ _ _ hwf]
-  have hs : construct (baseData yt yp) m = ((constructAll (baseData yt yp) [m]).1, annotatedOf m) := by
-    simp [constructAll_eq, construct_eq]
-  rw [hs]
+  obtain ⟨hr1, g1, g2⟩ := construct_rel yt yp m
   congr 1
   funext idx
-  exact metricFn_own yt yp [m] hok m (by simp) idx
-
-/-- a checkable sufficient condition for `ColsOK` (dict of metrics): the metric names are distinct, contain
-    no underscore and are not "y"; the parameter names of each metric are distinct (dict keys).  Then no
-    two sample parameters share a column and none shadows y_true / y_pred. -/
-theorem multi_colsOK_of_no_underscore (yt yp : List Rat) (ms : List (MetricSpec γ))
-    (hnames : (ms.map (·.name)).Nodup) (hpre : ∀ m ∈ ms, m.colPrefix = some m.name)
-    (hparams : ∀ m ∈ ms, (m.params.map (·.1)).Nodup)
-    (hus : ∀ m ∈ ms, '_' ∉ m.name.toList) (hy : ∀ m ∈ ms, m.name ≠ "y") :
-    ColsOK (baseData yt yp) ms :=
-  colsOK_of_no_underscore yt yp ms hnames hpre hparams hus hy
+  exact metricFn_of_rel _ yt yp m _ hr1 g1 g2 idx
 
 /-- the public accessors hand out exactly the documented pandas types (table in the docstring of
     `MetricFrame.overall`), for the `_extract_result` / `_populate_results` lifted from the source -/
@@ -491,36 +497,52 @@ theorem accessor_types (bare hasControl : Bool) :
       (if bare then (if hasControl then .series else .scalar) else (if hasControl then .dataFrame else .series)) := by
   cases bare <;> cases hasControl <;> exact ⟨rfl, rfl⟩
 
-/-- the metric used in the witness: the sum of its (single) keyword array -/
+/-- the metric used in the witnesses: the sum of its keyword arrays -/
 def sumKw : List (List Rat) → List (String × List Rat) → Rat := fun _ kw => ((kw.map (·.2)).flatten).sum
 
-/-- WITNESS (finding F17): metrics named "a" and "a_b" with parameters "b_c" and "c" share the
-    column "a_b_c"; metric "a" then receives the OTHER metric's parameter (30 instead of 3). -/
+/-- metrics named "a" and "a_b" with parameters "b_c" and "c": both columns would be called "a_b_c" -/
 def xtalk : List (MetricSpec Rat) :=
   [⟨"a", some "a", sumKw, [("b_c", some [1, 2, 4])]⟩, ⟨"a_b", some "a_b", sumKw, [("c", some [10, 20, 40])]⟩]
 
-theorem multi_crosstalk_witness :
-    metricFn (constructAll (baseData [0, 1, 1] [0, 1, 0]) xtalk).1 (annotatedOf (xtalk.getD 0 ⟨"", none, sumKw, []⟩)) [0, 1] = 30
-    ∧ sumKw [] (ownKwargs (xtalk.getD 0 ⟨"", none, sumKw, []⟩) [0, 1]) = 3
-    ∧ ¬ ColsOK (baseData [0, 1, 1] [0, 1, 0]) xtalk := by
-  refine ⟨by decide +kernel, by decide +kernel, ?_⟩
-  unfold ColsOK; decide +kernel
+def xtalk0 : MetricSpec Rat := xtalk.getD 0 ⟨"", none, sumKw, []⟩
 
-/-- second WITNESS of F17: a metric named "y" with a parameter named "pred" overwrites the `y_pred` column,
-    so EVERY metric of the dict (here: the fraction of rows with y_true = y_pred) sees the parameter
-    values instead of the predictions. -/
+/-- COUNTER-WITNESS (finding F19, pre-repair rule `legacyStep` = no uniquify loop): metric "a" receives the
+    OTHER metric's parameter on the rows [0, 1] (30 instead of its own 3) … -/
+theorem legacy_crosstalk_witness :
+    metricFn (legacyConstructAll (baseData [0, 1, 1] [0, 1, 0]) xtalk).1
+      ((legacyConstructAll (baseData [0, 1, 1] [0, 1, 0]) xtalk).2.getD 0 ⟨"", sumKw, [], []⟩) [0, 1] = 30
+    ∧ sumKw [] (ownKwargs xtalk0 [0, 1]) = 3 := by
+  exact ⟨by decide +kernel, by decide +kernel⟩
+
+/-- … while the current (translated) rule gives it its own parameter: the second column is "a_b_c_" -/
+theorem repaired_crosstalk_witness :
+    metricFn (constructAll (baseData [0, 1, 1] [0, 1, 0]) xtalk).1
+      ((constructAll (baseData [0, 1, 1] [0, 1, 0]) xtalk).2.getD 0 ⟨"", sumKw, [], []⟩) [0, 1] = 3
+    ∧ columns (constructAll (baseData [0, 1, 1] [0, 1, 0]) xtalk).1 = ["a_b_c_", "a_b_c", "y_true", "y_pred"] := by
+  exact ⟨by decide +kernel, by decide +kernel⟩
+
+/-- the fraction-free agreement count of y_true and y_pred -/
 def agree : List (List Rat) → List (String × List Rat) → Rat :=
   fun pos _ => (((pos.getD 0 []).zip (pos.getD 1 [])).filter (fun p => p.1 == p.2)).length
 
+/-- a metric named "y" with a parameter named "pred": its column would be "y_pred" -/
 def xbase : List (MetricSpec Rat) :=
   [⟨"y", some "y", sumKw, [("pred", some [1, 0, 0])]⟩, ⟨"acc", some "acc", agree, []⟩]
 
-theorem multi_basecolumn_witness :
-    metricFn (constructAll (baseData [0, 1, 1] [0, 1, 0]) xbase).1 (annotatedOf (xbase.getD 1 ⟨"", none, sumKw, []⟩)) [0, 1, 2] = 0
-    ∧ agree [[0, 1, 1], [0, 1, 0]] [] = 2
-    ∧ ¬ ColsOK (baseData [0, 1, 1] [0, 1, 0]) xbase := by
-  refine ⟨by decide +kernel, by decide +kernel, ?_⟩
-  unfold ColsOK; decide +kernel
+/-- COUNTER-WITNESS (F19, pre-repair rule): the parameter overwrites the `y_pred` column, so the OTHER metric
+    of the dict sees the parameter values instead of the predictions (0 agreements instead of 2) … -/
+theorem legacy_basecolumn_witness :
+    metricFn (legacyConstructAll (baseData [0, 1, 1] [0, 1, 0]) xbase).1
+      ((legacyConstructAll (baseData [0, 1, 1] [0, 1, 0]) xbase).2.getD 1 ⟨"", sumKw, [], []⟩) [0, 1, 2] = 0
+    ∧ agree [[0, 1, 1], [0, 1, 0]] [] = 2 := by
+  exact ⟨by decide +kernel, by decide +kernel⟩
+
+/-- … while the current rule stores the parameter in "y_pred_" and leaves the predictions alone -/
+theorem repaired_basecolumn_witness :
+    metricFn (constructAll (baseData [0, 1, 1] [0, 1, 0]) xbase).1
+      ((constructAll (baseData [0, 1, 1] [0, 1, 0]) xbase).2.getD 1 ⟨"", sumKw, [], []⟩) [0, 1, 2] = 2
+    ∧ columns (constructAll (baseData [0, 1, 1] [0, 1, 0]) xbase).1 = ["y_pred_", "y_true", "y_pred"] := by
+  exact ⟨by decide +kernel, by decide +kernel⟩
 
 end Multi
 
@@ -533,53 +555,113 @@ duplicate check are lifted from the source (`Generated/FeatureNamesSrc.lean`). -
 section Names
 open FeatureNames
 
-/-- whenever construction succeeds, the feature names (sensitive ++ control) are pairwise distinct -/
-theorem names_nodup (sb cb : String) (sf : Container) (cf : Option Container)
-    (s : List String) (c : Option (List String)) (h : featureNames sb cb sf cf = .ok (s, c)) :
-    (s ++ c.getD []).Nodup := by
-  unfold featureNames at h
-  cases hs : processFeatures sb sf with
-  | error e => simp [hs] at h
-  | ok s' =>
-    simp only [hs] at h
-    cases cf with
-    | none =>
-      simp only at h
-      split at h
-      · cases h
-      · next hd =>
-        injection h with h; injection h with h1 h2; subst h1; subst h2
-        simp only [Option.getD_none, List.append_nil]
-        exact (firstDuplicate_nil_none_iff _).mp (by simpa using hd)
-    | some cc =>
-      simp only at h
-      cases hc : processFeatures cb cc with
-      | error e => simp [hc] at h
-      | ok cn =>
-        simp only [hc, FeatureNamesSrc.sensitiveNamesFirst, if_true] at h
-        split at h
-        · cases h
-        · next hd =>
-          injection h with h; injection h with h1 h2; subst h1; subst h2
-          exact (firstDuplicate_nil_none_iff _).mp (by simpa using hd)
+/-- `reservedClash` says exactly: some feature name is already a column of `all_data` -/
+theorem reservedClash_iff (dataCols s cn : List String) :
+    reservedClash dataCols s cn = true ↔ ∃ n ∈ s ++ cn, n ∈ dataCols := by
+  simp only [reservedClash, FeatureNamesSrc.reservedCheck, FeatureNamesSrc.reservedSensitiveFirst, if_true,
+    Bool.true_and, List.any_eq_true, List.contains_iff_mem]
 
-/-- construction succeeds exactly when both containers yield names and all names are distinct -/
-theorem names_accepts_iff (sb cb : String) (sf : Container) (cc : Container)
+/-- construction with control features succeeds exactly when both containers yield names, NO name is
+    already a data column (y_true, y_pred, a sample-parameter column) and all names are distinct; the
+    reserved-name rejection comes first -/
+theorem names_accepts_iff (sb cb : String) (dataCols : List String) (sf : Container) (cc : Container)
     (s cn : List String) (hs : processFeatures sb sf = .ok s) (hc : processFeatures cb cc = .ok cn) :
-    featureNames sb cb sf (some cc) = (if (s ++ cn).Nodup then .ok (s, some cn) else .error .duplicateName) := by
+    featureNames sb cb dataCols sf (some cc) =
+      (if ∃ n ∈ s ++ cn, n ∈ dataCols then .error .reservedName
+       else if (s ++ cn).Nodup then .ok (s, some cn) else .error .duplicateName) := by
   unfold featureNames
   simp only [hs, hc, FeatureNamesSrc.sensitiveNamesFirst, if_true]
-  by_cases hn : (s ++ cn).Nodup
-  · have := (firstDuplicate_nil_none_iff _).mpr hn
-    simp [this, hn]
-  · have : firstDuplicate [] (s ++ cn) ≠ none := fun h => hn ((firstDuplicate_nil_none_iff _).mp h)
-    cases hf : firstDuplicate [] (s ++ cn) with
-    | none => exact absurd hf this
-    | some x => simp [hn]
+  by_cases hr : ∃ n ∈ s ++ cn, n ∈ dataCols
+  · rw [if_pos ((reservedClash_iff dataCols s cn).mpr hr), if_pos hr]
+  · have : ¬ reservedClash dataCols s cn = true := fun h => hr ((reservedClash_iff dataCols s cn).mp h)
+    rw [if_neg this, if_neg hr]
+    by_cases hn : (s ++ cn).Nodup
+    · have := (firstDuplicate_nil_none_iff _).mpr hn
+      simp [this, hn]
+    · have : firstDuplicate [] (s ++ cn) ≠ none := fun h => hn ((firstDuplicate_nil_none_iff _).mp h)
+      cases hf : firstDuplicate [] (s ++ cn) with
+      | none => exact absurd hf this
+      | some x => simp [hn]
+
+/-- the same without control features -/
+theorem names_accepts_iff_no_control (sb cb : String) (dataCols : List String) (sf : Container)
+    (s : List String) (hs : processFeatures sb sf = .ok s) :
+    featureNames sb cb dataCols sf none =
+      (if ∃ n ∈ s, n ∈ dataCols then .error .reservedName
+       else if s.Nodup then .ok (s, none) else .error .duplicateName) := by
+  unfold featureNames
+  simp only [hs]
+  have hiff := reservedClash_iff dataCols s []
+  simp only [List.append_nil] at hiff
+  by_cases hr : ∃ n ∈ s, n ∈ dataCols
+  · rw [if_pos (hiff.mpr hr), if_pos hr]
+  · have : ¬ reservedClash dataCols s [] = true := fun h => hr (hiff.mp h)
+    rw [if_neg this, if_neg hr]
+    by_cases hn : s.Nodup
+    · have := (firstDuplicate_nil_none_iff _).mpr hn
+      simp [this, hn]
+    · have : firstDuplicate [] s ≠ none := fun h => hn ((firstDuplicate_nil_none_iff _).mp h)
+      cases hf : firstDuplicate [] s with
+      | none => exact absurd hf this
+      | some x => simp [hn]
+
+/-- whenever construction succeeds, the feature names (sensitive ++ control) are pairwise distinct AND none
+    of them is a column of `all_data`: an accepted feature never overwrites y_true, y_pred or a
+    sample-parameter column -/
+theorem names_nodup_and_no_overwrite (sb cb : String) (dataCols : List String) (sf : Container)
+    (cf : Option Container) (s : List String) (c : Option (List String))
+    (h : featureNames sb cb dataCols sf cf = .ok (s, c)) :
+    (s ++ c.getD []).Nodup ∧ ∀ n ∈ s ++ c.getD [], n ∉ dataCols := by
+  cases hs : processFeatures sb sf with
+  | error e => unfold featureNames at h; simp [hs] at h
+  | ok s' =>
+    cases cf with
+    | none =>
+      rw [names_accepts_iff_no_control sb cb dataCols sf s' hs] at h
+      split at h
+      · cases h
+      · next hr =>
+        split at h
+        · next hn =>
+          injection h with h; injection h with h1 h2; subst h1; subst h2
+          simp only [Option.getD_none, List.append_nil]
+          exact ⟨hn, fun n hn' hd => hr ⟨n, hn', hd⟩⟩
+        · cases h
+    | some cc =>
+      cases hc : processFeatures cb cc with
+      | error e => unfold featureNames at h; simp [hs, hc] at h
+      | ok cn =>
+        rw [names_accepts_iff sb cb dataCols sf cc s' cn hs hc] at h
+        split at h
+        · cases h
+        · next hr =>
+          split at h
+          · next hn =>
+            injection h with h; injection h with h1 h2; subst h1; subst h2
+            exact ⟨hn, fun n hn' hd => hr ⟨n, hn', hd⟩⟩
+          · cases h
+
+theorem names_nodup (sb cb : String) (dataCols : List String) (sf : Container) (cf : Option Container)
+    (s : List String) (c : Option (List String)) (h : featureNames sb cb dataCols sf cf = .ok (s, c)) :
+    (s ++ c.getD []).Nodup :=
+  (names_nodup_and_no_overwrite sb cb dataCols sf cf s c h).1
+
+/-- a feature called like a data column is rejected: 'y_true', 'y_pred' (always columns) or the column of a
+    sample parameter -/
+theorem names_reserved_rejected (sb cb : String) (dataCols : List String) (sf : Container) (cf : Option Container)
+    (s : List String) (hs : processFeatures sb sf = .ok s) (n : String) (hn : n ∈ s) (hd : n ∈ dataCols)
+    (hcf : ∀ cc, cf = some cc → ∃ cn, processFeatures cb cc = .ok cn) :
+    featureNames sb cb dataCols sf cf = .error .reservedName := by
+  cases cf with
+  | none =>
+    rw [names_accepts_iff_no_control sb cb dataCols sf s hs, if_pos ⟨n, hn, hd⟩]
+  | some cc =>
+    obtain ⟨cn, hc⟩ := hcf cc rfl
+    rw [names_accepts_iff sb cb dataCols sf cc s cn hs hc, if_pos ⟨n, by simp [hn], hd⟩]
 
 /-- an error of either container is the error of the constructor (sensitive features first) -/
-theorem names_error_propagates (sb cb : String) (sf : Container) (cf : Option Container) (e : FErr)
-    (h : processFeatures sb sf = .error e) : featureNames sb cb sf cf = .error e := by
+theorem names_error_propagates (sb cb : String) (dataCols : List String) (sf : Container) (cf : Option Container)
+    (e : FErr) (h : processFeatures sb sf = .error e) : featureNames sb cb dataCols sf cf = .error e := by
   unfold featureNames; simp [h]
 
 /-- which containers are rejected, and with which error -/
@@ -630,21 +712,36 @@ theorem names_default_disjoint (i j : Nat) :
   simp [defaultName, FeatureNamesSrc.defaultName, FeatureNamesSrc.sensitiveBase, FeatureNamesSrc.controlBase,
     String.toList_append] at h2
 
-/-- hence array / list inputs (which carry no names) are always accepted: any number of sensitive
-    columns together with any number of control columns -/
+/-- default names are never `y_true` / `y_pred` -/
+theorem names_default_not_base (i : Nat) :
+    defaultName FeatureNamesSrc.sensitiveBase i ∉ ["y_true", "y_pred"] ∧
+    defaultName FeatureNamesSrc.controlBase i ∉ ["y_true", "y_pred"] := by
+  constructor <;> intro h <;> simp only [List.mem_cons, List.not_mem_nil, or_false] at h <;>
+    rcases h with h | h <;>
+    · have h2 := congrArg String.toList h
+      simp [defaultName, FeatureNamesSrc.defaultName, FeatureNamesSrc.sensitiveBase, FeatureNamesSrc.controlBase,
+        String.toList_append] at h2
+
+/-- hence array / list inputs (which carry no names) are always accepted when no sample parameters are
+    stored: any number of sensitive columns together with any number of control columns -/
 theorem names_arrays_accepted (k l : Nat) :
-    metricFrameNames (.array 2 k) (some (.array 2 l)) =
+    metricFrameNames ["y_true", "y_pred"] (.array 2 k) (some (.array 2 l)) =
       .ok ((List.range k).map (defaultName FeatureNamesSrc.sensitiveBase),
            some ((List.range l).map (defaultName FeatureNamesSrc.controlBase))) := by
   unfold metricFrameNames
-  rw [names_accepts_iff _ _ _ _ _ _ rfl rfl, if_pos]
-  rw [List.nodup_append]
-  refine ⟨default_names_nodup _ k, default_names_nodup _ l, ?_⟩
-  intro a ha b hb
-  simp only [List.mem_map, List.mem_range] at ha hb
-  obtain ⟨i, _, rfl⟩ := ha
-  obtain ⟨j, _, rfl⟩ := hb
-  exact names_default_disjoint i j
+  rw [names_accepts_iff _ _ _ _ _ _ _ rfl rfl, if_neg, if_pos]
+  · rw [List.nodup_append]
+    refine ⟨default_names_nodup _ k, default_names_nodup _ l, ?_⟩
+    intro a ha b hb
+    simp only [List.mem_map, List.mem_range] at ha hb
+    obtain ⟨i, _, rfl⟩ := ha
+    obtain ⟨j, _, rfl⟩ := hb
+    exact names_default_disjoint i j
+  · rintro ⟨n, hn, hd⟩
+    simp only [List.mem_append, List.mem_map, List.mem_range] at hn
+    rcases hn with ⟨i, _, rfl⟩ | ⟨i, _, rfl⟩
+    · exact (names_default_not_base i).1 hd
+    · exact (names_default_not_base i).2 hd
 
 end Names
 
@@ -669,10 +766,12 @@ example : overall 0 1 List.sum exRowsC = [(["k"], 14), (["m"], 1)] := by decide 
 example : byGroup 0 0 1 List.length [(⟨(), [], ["z"]⟩ : Row Unit), ⟨(), [], ["b"]⟩, ⟨(), [], ["z"]⟩] =
     [(["b"], 1), (["z"], 2)] := by decide +kernel
 
-example : FeatureNames.metricFrameNames (.series (some (.str "grp"))) (some (.dataframe [.str "a", .str "grp"])) =
+example : FeatureNames.metricFrameNames ["y_true", "y_pred"] (.series (some (.str "grp"))) (some (.dataframe [.str "a", .str "grp"])) =
     .error .duplicateName := by decide +kernel
-example : FeatureNames.metricFrameNames (.dict [.str "s", .other] true) none = .error .columnNameNotString := by decide +kernel
-example : FeatureNames.metricFrameNames (.list true) (some (.series none)) =
+example : FeatureNames.metricFrameNames ["y_true", "y_pred"] (.dict [.str "s", .other] true) none = .error .columnNameNotString := by decide +kernel
+example : FeatureNames.metricFrameNames ["m_w", "y_true", "y_pred"] (.series (some (.str "y_pred"))) none = .error .reservedName := by decide +kernel
+example : FeatureNames.metricFrameNames ["m_w", "y_true", "y_pred"] (.list true) (some (.series (some (.str "m_w")))) = .error .reservedName := by decide +kernel
+example : FeatureNames.metricFrameNames ["y_true", "y_pred"] (.list true) (some (.series none)) =
     .ok (["sensitive_feature_0"], some ["control_feature_0"]) := by decide +kernel
 
 end C01
